@@ -478,7 +478,10 @@ func dependsOnFieldIP(c *Ctx, v ssa.Value, suffix string, seen map[ssa.Value]boo
 }
 
 // c03CacheKeys: path-sensitive nil-ness of Lease.CircuitID in handleRequest (see rule text).
-func c03CacheKeys(c *Ctx) {
+func c03CacheKeys(c *Ctx) { leaseHandleKept(c, "C03.cacheKeys") }
+
+// leaseHandleKept: shared by C03 (cache entries) and C16 (secondary index): see the rule text at the call sites.
+func leaseHandleKept(c *Ctx, rule string) {
 	r := c.R
 	f := c.fn("pkg/dhcp", "Server", "handleRequest")
 	if f == nil {
@@ -494,7 +497,7 @@ func c03CacheKeys(c *Ctx) {
 		}
 	})
 	if insert == nil {
-		r.Check("C03.cacheKeys", load.ShortFunc(f), "lease record replacement found", c.P.Pos(f.Pos()), false, "no insertion into Server.leases in handleRequest")
+		r.Check(rule, load.ShortFunc(f), "lease record replacement found", c.P.Pos(f.Pos()), false, "no insertion into Server.leases in handleRequest")
 		return
 	}
 	isLeasePtr := func(v ssa.Value) bool {
@@ -529,7 +532,7 @@ func c03CacheKeys(c *Ctx) {
 		startInstr = in
 	}
 	if startInstr == nil {
-		r.Check("C03.cacheKeys", load.ShortFunc(f), "creation of the new lease record found", c.P.Pos(insert.Pos()), false, "the record inserted into Server.leases is not created in handleRequest")
+		r.Check(rule, load.ShortFunc(f), "creation of the new lease record found", c.P.Pos(insert.Pos()), false, "the record inserted into Server.leases is not created in handleRequest")
 		return
 	}
 	isRec := func(v ssa.Value) bool {
@@ -567,7 +570,7 @@ func c03CacheKeys(c *Ctx) {
 		}
 	})
 	if oldKey == "" {
-		r.Check("C03.cacheKeys", load.ShortFunc(f), "renewal consults the old record's CircuitID", c.P.Pos(f.Pos()), false,
+		r.Check(rule, load.ShortFunc(f), "renewal consults the old record's CircuitID", c.P.Pos(f.Pos()), false,
 			"handleRequest never reads the existing lease's CircuitID: a renewal without Option 82 forgets the circuit-id under which cache entries were written, and release can no longer delete them")
 		return
 	}
@@ -670,7 +673,7 @@ func c03CacheKeys(c *Ctx) {
 	}
 	ok := walk(start, idx, pstate{cell: "nil", isNil: map[string]bool{}, loaded: map[ssa.Value]string{}}, map[*ssa.BasicBlock]int{})
 	r.Count("cachekey_paths", paths)
-	r.Check("C03.cacheKeys", load.ShortFunc(f), "new record's CircuitID is nil only if the old record's was", bad, ok && paths > 0,
+	r.Check(rule, load.ShortFunc(f), "new record's CircuitID is nil only if the old record's was", bad, ok && paths > 0,
 		"on some path the existing lease has a circuit-id but the record that replaces it has none: the circuit_id_map / circuit_id_subscribers entries written for it are never deleted at release or expiry, and the fast path keeps answering for that circuit-id")
 }
 
